@@ -48,6 +48,8 @@ def random_drawing_circuit(rng, family=None, max_nodes=4, max_comps=6):
                            freqs=[w], ground_prob=0.8, lossy=0.0, node_pool=[f'N{k}' for k in range(8)],
                            id_pool=['R1', 'R2', 'R3', 'Rx', 'G1', 'Z1', 'Vs', 'Vq', 'Is', 'Iq', 'A', 'B', 'L1', 'C1', 'C2', 'L2', 'U1', 'S1', 'H1', 'La', 'K'])
     for c in cd['components']:
+        if c['ctor'] in ('ac_voltage_source', 'ac_current_source'):
+            c['phase_mode'] = [(False, False), (True, False), (False, True), (True, True)][rng.randrange(4)]      # (sine reference, degrees)
         if c['ctor'] in ('periodic_voltage_source', 'periodic_current_source'):
             c['args']['wavetype'] = rng.choice(['rect', 'tri', 'saw'])
             c['args'].pop('R', None); c['args'].pop('G', None)
@@ -304,6 +306,17 @@ def judge_one(ctx, prefix, prog, family, w, tname, base_canon=None):
         if raised(r):
             ctx.violation(f'{prefix}/rendering-raised/{r.key}', f'drawing the schematic raised {r.text}', {})
             return net
+    if tname == 'base' and len(prog['symbols']) % 4 == 0:
+        # the unknown-symbol rule: a part that is not one of the library's symbols (a plain schemdraw resistor, diode ...) cannot be
+        # read as a netlist element; the translation refuses the drawing instead of dropping the part
+        import schemdraw.elements as raw
+        d2 = call(D.build, prog)
+        if not raised(d2):
+            part = [raw.Resistor, raw.Diode, raw.Capacitor, raw.SourceV][len(prog['symbols']) // 4 % 4]
+            r2 = call(lambda: (d2.add(part().at((97.0, 89.0)).right()), circuit_translator(d2))[1])
+            ctx.count('drawings_with_a_foreign_part')
+            if not raised(r2):
+                ctx.violation(f'{prefix}/foreign-part-accepted', f'a drawing containing a plain schemdraw {part.__name__} was translated to {len(r2.components)} components instead of being refused', {})
     circ = call(circuit_translator, d)
     ctx.count('drawings_translated'); ctx.count(f'transform_{tname}')
     if raised(circ):
@@ -313,6 +326,13 @@ def judge_one(ctx, prefix, prog, family, w, tname, base_canon=None):
     l2m = compare_structure(ctx, prefix, circ, net, tname, rounding_boundary(prog))
     if l2m is not None:
         solve_and_compare(ctx, prefix, circ, net, l2m, 'dc' if family == 'net' else family, w, tname)
+        if family == 'net':
+            # a netlist drawing with sinusoidal or periodic sources is also solved at one of their frequencies: amplitude AND phase
+            # (entered as cosine or sine reference, in radians or degrees) have to arrive in the circuit
+            fs = sorted({c['args']['w'] for c in net['components'] if c['ctor'].startswith(('ac_', 'periodic_')) and c['args'].get('w', 0) > 0})
+            if fs:
+                ctx.count('netlist_drawings_solved_at_a_source_frequency')
+                solve_and_compare(ctx, prefix + '/at-source-frequency', circ, net, l2m, 'ac', fs[len(prog['symbols']) % len(fs)], tname)
         if rounding_boundary(prog):
             ctx.count('set_aside_parser_clause_on_rounding_boundary')      # the recorded known mechanism; judged by compare_structure above
         else:
